@@ -1,13 +1,14 @@
 #!/bin/bash
-# run_seeded.sh <seeded-dir> [profile...]  — apply <seeded-dir>/patch.diff to a scratch copy of /repo's current tree,
-# build the SIM-SYS engine from it and run the quick tier of the given profiles (default: the property in meta.json).
+# run_seeded.sh <seeded-dir> [property ids...] — apply <seeded-dir>/patch.diff to a scratch copy of /repo's current
+# tree and run the quick tier of the given checks (default: the property in meta.json) against it, through ./check
+# with redirected build / evidence / replay directories. Nothing in /repo or /verif/evidence is touched.
 set -u
 D="$1"; shift
-PROFS="$*"
-if [ -z "$PROFS" ]; then PROFS=$(python3 -c "import json,sys;print(json.load(open('$D/meta.json'))['property'])"); fi
+IDS="$*"
+if [ -z "$IDS" ]; then IDS=$(python3 -c "import json,sys;print(json.load(open('$D/meta.json'))['property'])"); fi
 cd /verif
 tools/with_patch.sh "$D/patch.diff" bash -c '
-  make -s -j16 REPO=$REPO B=$B $B/simsys_plain > /dev/null 2>$B.err || { echo BUILD-FAILED; tail -5 $B.err; exit 3; }
-  for P in '"$PROFS"'; do
-    $B/simsys_plain --profile $P --workers 16 --replay-dir /tmp/seeded_replays ${RUNS:+--runs $RUNS} 2>&1 | grep -E "VIOLATION|KNOWN|class=|quick:|HARNESS" | cut -c1-400
+  for P in '"$IDS"'; do
+    VERIF_REPO=$REPO VERIF_BUILD=$B VERIF_EVIDENCE_DIR=$B/evidence VERIF_REPLAY_DIR=/tmp/seeded_replays ./check $P 2>&1 | grep -E "VIOLATION|KNOWN|class=|quick|HARNESS" | cut -c1-330
+    echo "exit=${PIPESTATUS[0]}"
   done'
